@@ -95,11 +95,7 @@ def run_invocation(sc, backend, seed, fault=None, schedule=None, clock0=None):
                     res["events"].append(["ack", operation_update.name, operation_update.action.value, operation_update.operation_type.value, sim.clock])
                 return r_
             # the empty (refresh) checkpoint of the timer thread's resubmitter
-            try:
-                return orig_cc(self, operation_update, is_sync)
-            except BaseException:  # noqa: BLE001
-                res.setdefault("pevents", []).append(["refresh.fail", int(round((sim.clock - res.get("_t0", sim.clock)) * 1e6))])
-                raise
+            return orig_cc(self, operation_update, is_sync)
 
         ExecutionState.create_checkpoint = cc
         import aws_durable_execution_sdk_python.operation.child as childmod
@@ -154,7 +150,7 @@ def run_invocation(sc, backend, seed, fault=None, schedule=None, clock0=None):
                 # the model's `finish` action is placed at the instant the callback's effect happens: the branch status
                 # change (ok/err/susp*), or - for orphan/fatal, which change no status - the entry of the locked section
                 sim.tls.cb = (exe_state.index, k)
-                if k[0] in ("orphan", "fatal") and not hasattr(exmod.ConcurrentExecutor, "_handle_task_complete"):
+                if k[0] in ("orphan",) and not hasattr(exmod.ConcurrentExecutor, "_handle_task_complete"):
                     pe.append(["finish", us(sim.clock), exe_state.index] + k)
                     sim.tls.cb = None
             try:
@@ -183,8 +179,8 @@ def run_invocation(sc, backend, seed, fault=None, schedule=None, clock0=None):
         if orig_handle is not None:
             def handle_task_complete(self, exe_state, future, scheduler):
                 cb = getattr(sim.tls, "cb", None)
-                if cb is not None and cb[1][0] in ("orphan", "fatal"):
-                    flush_cb()
+                if cb is not None and cb[1][0] in ("orphan",):
+                    flush_cb()        # (a fatal end takes effect when the fatal flag is assigned: see the property below)
                 try:
                     return orig_handle(self, exe_state, future, scheduler)
                 finally:
@@ -195,15 +191,29 @@ def run_invocation(sc, backend, seed, fault=None, schedule=None, clock0=None):
             pe.append(["reset", us(sim.clock), self.index])
             return orig_reset(self)
 
-        orig_sched_shutdown = exmod.TimerScheduler.shutdown
+        # The fatal flag is a plain attribute: to place its assignment (by a done-callback or by the timer thread) and
+        # its first read by the main thread exactly, it is observed through a property installed from outside.
+        flag_state = {"read": False}
 
-        def sched_shutdown(self):
-            try:
-                return orig_sched_shutdown(self)
-            finally:
-                # execute() reads the fatal / suspend flags right after the scheduler block (no scheduling point between)
+        def _get_fatal(self_):
+            v = self_.__dict__.get("_verif_fatal")
+            if not flag_state["read"] and self_.__dict__.get("_verif_waiting"):
+                flag_state["read"] = True
                 pe.append(["flags", us(sim.clock)])
-        exmod.TimerScheduler.shutdown = sched_shutdown
+            return v
+
+        def _set_fatal(self_, v):
+            self_.__dict__["_verif_fatal"] = v
+            if v is None:
+                flag_state["read"] = False
+                self_.__dict__["_verif_waiting"] = True      # execute() clears the flags right before it starts submitting
+                return
+            cb = getattr(sim.tls, "cb", None)
+            if cb is not None and cb[1][0] == "fatal":
+                flush_cb()
+            else:
+                pe.append(["refresh.fail", us(sim.clock)])
+        exmod.ConcurrentExecutor._fatal_exception = property(_get_fatal, _set_fatal)
         orig_ses = exmod.ConcurrentExecutor.should_execution_suspend
 
         def should_execution_suspend(self):
@@ -372,7 +382,10 @@ def run_invocation(sc, backend, seed, fault=None, schedule=None, clock0=None):
             exmod.ConcurrentExecutor.execute = orig_execute
             exmod.ConcurrentExecutor._on_task_complete = orig_cb
             exmod.ConcurrentExecutor.should_execution_suspend = orig_ses
-            exmod.TimerScheduler.shutdown = orig_sched_shutdown
+            try:
+                del exmod.ConcurrentExecutor._fatal_exception
+            except AttributeError:
+                pass
             ExecutableWithState.reset_to_pending = orig_reset
             exmod.heapq = orig_heapq
             for m, f in orig_status.items():
